@@ -222,6 +222,7 @@ func (ix *idxEngine) lenFacts(p *prover, v ssa.Value, t string, at ssa.Instructi
 	}
 	// struct-valued call results whose field is a parameter of the callee (ForColumnWidths)
 	out = append(out, ix.resultFieldFacts(p, v, t)...)
+	out = append(out, ix.resultLenFacts(p, v, t, at)...)
 	return out
 }
 
@@ -790,4 +791,83 @@ func (ix *idxEngine) immutableField(f *types.Var) bool {
 	}
 	ix.immut[f] = res
 	return res
+}
+
+// resultLenFacts: v is a slice/string result of a module function all of whose non-nil returns for that result
+// have one length expressed over the callee's parameters (return make([]T, n)); then len(v) is that expression
+// over the actual arguments. Returns that yield nil for this result must carry a definitely non-nil error, and
+// in that case the fact is only offered where the caller has established that the error result is nil.
+func (ix *idxEngine) resultLenFacts(p *prover, v ssa.Value, t string, at ssa.Instruction) []constraint {
+	var call *ssa.Call
+	k := 0
+	switch x := v.(type) {
+	case *ssa.Extract:
+		call, _ = x.Tuple.(*ssa.Call)
+		k = x.Index
+	case *ssa.Call:
+		call = x
+	}
+	if call == nil || at == nil {
+		return nil
+	}
+	callee := call.Call.StaticCallee()
+	if callee == nil || !inModule(callee) || callee.Blocks == nil || callee == p.fn {
+		return nil
+	}
+	nres := callee.Signature.Results().Len()
+	if k >= nres {
+		return nil
+	}
+	errIdx := -1
+	if nres > 1 && isErrorType(callee.Signature.Results().At(nres-1).Type()) {
+		errIdx = nres - 1
+	}
+	pc := ix.proverFor(callee)
+	var L *lin
+	needErrNil := false
+	for _, ret := range returnsOf(callee) {
+		rv := results(ret)
+		if len(rv) != nres {
+			return nil
+		}
+		for _, e := range phiClosure(rv[k]) {
+			if isNil(e) {
+				if errIdx < 0 || !definitelyNonNilErr(rv[errIdx]) {
+					return nil
+				}
+				needErrNil = true
+				continue
+			}
+			l := pc.lenOf(e)
+			if L == nil {
+				L = &l
+			} else if L.String() != l.String() {
+				return nil
+			}
+		}
+	}
+	if L == nil {
+		return nil
+	}
+	tr, ok := ix.translate(callee, constraint{*L, ""}, callSite{p.fn, call})
+	if !ok {
+		return nil
+	}
+	if needErrNil {
+		guarded := false
+		for _, cf := range dominatingConds(at.Block()) {
+			e, nn, isT := nilTest(cf.Cond)
+			if !isT || (nn == 1) != cf.Val {
+				continue
+			}
+			if ex, isEx := e.(*ssa.Extract); isEx && ex.Tuple == ssa.Value(call) && ex.Index == errIdx {
+				guarded = true
+			}
+		}
+		if !guarded {
+			return nil
+		}
+	}
+	why := "every successful return of " + FuncName(callee) + " yields a slice of this length"
+	return []constraint{leq(linTerm(t), tr.e, why), leq(tr.e, linTerm(t), why)}
 }
